@@ -136,7 +136,9 @@ def concretise(text, rng, style=None):
         if k == "title":
             cursec = ln["sec"]
             opts = TITLES[ln["sec"]]
-            out.append(style.get("title", {}).get(ln["sec"]) or rng.choice(opts))
+            # blanks around a title line are presentation (not before the very first line: a string input is recognised by it)
+            ind = "" if (not out or style.get("plain")) else rng.choice(["", "", "", " ", "   ", "\t"])
+            out.append(ind + (style.get("title", {}).get(ln["sec"]) or rng.choice(opts)) + rng.choice(["", "", " ", "  "]))
         elif k == "item":
             m, u, v, d = ITEMS[(ln["m"], ln["v"])]
             if ln["v"] == "c":
@@ -195,6 +197,11 @@ def concretise(text, rng, style=None):
                 sep = rng.choice([" ", "   ", "\t", " \t "])
             lead = rng.choice(["", " ", "    "]) if dlm == "SPACE" else rng.choice(["", "", " "])
             trail = rng.choice(["", " ", "  "]) if dlm == "SPACE" else rng.choice(["", "", " "])
+            if dlm != "SPACE" and any(cell["cls"] == "TEXT" for cell in ln["cells"]):
+                # recorded finding D34: lasio keeps the padding blanks of TEXT values under COMMA / TAB (the repository's own
+                # test-suite pins that).  Text rows are therefore padded only by the dedicated probe of C09 (style "padtext").
+                sep = ("," if dlm == "COMMA" else "\t") if not style.get("padtext") else (" , " if dlm == "COMMA" else " \t ")
+                lead = trail = ""
             out.append(lead + sep.join(toks) + trail)
         else:
             raise tlc.MachineryError("unknown line kind %r" % k)
